@@ -1337,6 +1337,14 @@ def stmt_range_features(info, req):
         b = getattr(par, fld, None)
         if isinstance(b, list) and stmts[-1] in b:
             blk = b
+    # plain reads in the statements that follow the range IN THE SAME SUITE: these are exactly the
+    # occurrences _find_needed_output_variables looks at (non-definition names in the following siblings),
+    # so a variable read there IS returned by the code as it stands; the listed finding is about reads
+    # elsewhere (after the enclosing block, next loop iteration, augmented assignment target)
+    following = blk[blk.index(stmts[-1]) + 1:] if blk is not None else []
+    f['loaded_in_following_siblings'] = sorted({n.id for st in following for n in ast.walk(st)
+                                                if isinstance(n, ast.Name) and isinstance(n.ctx, ast.Load)
+                                                and n.id in f['stored']})
     f['single_return_next_line'] = len(stmts) == 1 and isinstance(stmts[0], ast.Return) and req['variant'] == 'next-line'
     f['ends_block_next_line'] = req['variant'] == 'next-line' and blk is not None and blk[-1] is stmts[-1]
     return f
@@ -1376,12 +1384,13 @@ def classify_xfun_stmt(feats, status, new, base):
             return 'unneeded-last-variable-returned-though-conditionally-assigned'
         if v in feats['stored'] and v in feats['loaded_inside'] and v not in params:
             return 'assigned-variable-read-in-range-not-passed'
-        if v in feats['stored'] and v not in outs and v in feats['loaded_outside']:
+        if v in feats['stored'] and v not in outs and v in feats['loaded_outside'] \
+                and v not in feats['loaded_in_following_siblings']:
             return 'assigned-variable-needed-later-not-returned'
         return None
     if status[0] in ('ok', 'exc'):
         missing = [v for v in feats['stored'] if v not in outs and v in feats['loaded_outside']]
-        if missing:
+        if missing and not any(v in feats['loaded_in_following_siblings'] for v in missing):
             return 'assigned-variable-needed-later-not-returned'
         unpassed = [v for v in feats['stored'] if v in feats['loaded_inside'] and v not in params]
         if unpassed and status[0] == 'exc':
